@@ -3,6 +3,7 @@
 HARNESSES = {
     'mc_hash': dict(src=['mc_hash.c'], flavour='asan'),
     'mc_logmath': dict(src=['mc_logmath.c'], flavour='asan'),
+    'mc_fe': dict(src=['mc_fe.c'], flavour='asan'),
     'mc_endpointer': dict(src=['mc_endpointer.c'], flavour='asan', ldflags=['-Wl,--wrap=vad_classify']),
 }
 
@@ -39,7 +40,40 @@ def _ep_runs(maxwin, nlong):
     return r
 
 
+def _fe_runs(tier):
+    r = []
+    geoms = ['4x8', '3x7', '4x4', '2x9'] + (['5x13', '2x2', '3x4'] if tier == 'thorough' else [])
+    for g in geoms:
+        for e in ('int16', 'float'):
+            r.append(dict(h='mc_fe', label='fe-%s-%s-allopts' % (g, e), args=['--geom', g, '--opts', 'all', '--enc', e]))
+    r.append(dict(h='mc_fe', label='fe-real-int16', args=['--geom', 'real', '--opts', '0', '--enc', 'int16']))
+    r.append(dict(h='mc_fe', label='fe-big-calls', args=['--big']))
+    if tier == 'thorough':
+        r.append(dict(h='mc_fe', label='fe-real-float', args=['--geom', 'real', '--opts', '0', '--enc', 'float']))
+        for o in (1, 3, 4, 8, 16, 32, 64, 128, 63):
+            r.append(dict(h='mc_fe', label='fe-real-int16-opts%d' % o, args=['--geom', 'real', '--opts', str(o), '--enc', 'int16']))
+        for g in ('4x8', '2x9', '3x7'):
+            r.append(dict(h='mc_fe', label='fe-%s-long' % g, args=['--geom', g, '--opts', 'all', '--enc', 'int16', '--nmax', '70']))
+    return r
+
+
 CHECKS = {
+    'C06': dict(
+        title='acoustic features do not depend on chunking, output limits or sample encoding',
+        level='model_checking',
+        runs={'quick': _fe_runs('quick'), 'thorough': _fe_runs('thorough')},
+        budget_s={'quick': 240, 'thorough': 2400},
+        coverage=mc_cov,
+        rule='explicit-state BFS over processing-call sequences on the real front end: geometry (shift,size) in {4x8,3x7,4x4,2x9} '
+             '(tiny sample rates) and the real 160x410, every one of the 144 option sets (noise removal, DC removal, 3 transforms, '
+             'lifter, log/smooth spectrum, pre-emphasis off) x int16/float32; a call = (chunk length in {1,2,shift-1,shift,shift+1,'
+             'size-1,size,size+1,size+shift,2size+1,rest}) x (output limit in {1,2,unlimited}) on an exact-size heap copy of the '
+             'chunk; unconsumed samples are re-offered as a caller must; end of stream allowed in every state, i.e. every total '
+             'length N in [0,3size+2shift]; state = (consumed, emitted, owed samples, overflow buffer, pre-emphasis prior, speech '
+             'buffer, noise tracker); oracle: frames bit-identical to the one-call run, counts, pointer/count agreement, progress',
+        assumptions=['one fixed pseudo-random int16 signal with full-scale samples mixed in (the chunking code does not branch on sample values)',
+                     'dither off (process-global RNG)', 'native-endian input'] + TRUST,
+    ),
     'C15': dict(
         title='endpointed speech segments are exact excerpts with consistent timestamps',
         level='model_checking',
@@ -91,6 +125,14 @@ CHECKS = {
 PENDING_REASON = {}
 
 MANIFEST_TEXT = {
+    'C06': dict(
+        text='Explicit-state model checking of the real front end with analysis windows shrunk to a few samples, so that the '
+             'reachable canonical states under ALL sequences of processing calls (11 chunk lengths x 3 output limits, re-offering '
+             'what a call left) are explored to fixpoint for every total signal length up to 3 windows + 2 shifts, for 144 option '
+             'sets and both encodings, plus the real 16 kHz geometry and 60000-sample single calls; each emitted frame is compared '
+             'bit-for-bit with the one-call run under ASan with exact-size input and output blocks.',
+        design_ref='DESIGN.md section 2, H4', technique='explicit-state BFS to fixpoint on the implementation, differential oracle against the one-call run',
+        note='signal values fixed; geometries limited to the listed ones; src/fe_noise.c compiled into the harness unit to serialise the noise tracker'),
     'C15': dict(
         text='Explicit-state model checking of the real endpointer: for each accepted configuration with a window of up to 6 '
              '(quick) / 11 (thorough) frames the set of reachable canonical states under arbitrary per-frame VAD decisions and '
